@@ -118,7 +118,7 @@ Section Monitor.
     | IStop =>                       (* device down: everything is dropped, nothing is owed *)
         {| m_sess := 3; m_queue := []; m_expect := []; m_tun := []; m_optka := false;
            m_init := None; m_recv := None; m_sent := None; m_last := None; m_est := 0; m_owed := None; m_hs := m_hs m |}
-    | IStart =>                      (* device up: the interval of silence starts now *)
+    | IStart | IConfigure =>         (* device up / peer created on an up device: the interval of silence starts now *)
         {| m_sess := 0; m_queue := []; m_expect := []; m_tun := []; m_optka := false;
            m_init := None; m_recv := None; m_sent := None; m_last := Some t; m_est := 0; m_owed := None;
            m_hs := 0 (* Start back-dates lastSentHandshake *) |}
